@@ -41,6 +41,11 @@ func zzC18SameLog(cmd int, cfg string) {
 		zzStdinPlan(p, false)
 		err = RunPlan(nil, opts)
 		delta = 2
+	case 5:
+		err = applySetUpdates(dir, opts, zzString("id"), map[string]string{"title": "new-title"}, opts.AgentID, true)
+	case 6: // result attachment: its own locked section and append
+		zzTouchUnder(root, zzString("rpath"))
+		err = applySetUpdates(dir, opts, zzString("id"), map[string]string{"result.path": zzString("rpath"), "result.summary": zzString("rsummary")}, opts.AgentID, true)
 	}
 	zzAssume(!errors.Is(err, ErrLockBusy))
 	p1 := getEventsPath(dir)
@@ -75,6 +80,15 @@ func zzC18_SameLogPlan_Neither() { zzC18SameLog(4, "plans=0;old=0") }
 func zzC18_SameLogPlan_Plans() { zzC18SameLog(4, "plans=1;old=0") }
 func zzC18_SameLogPlan_Legacy() { zzC18SameLog(4, "plans=0;old=1") }
 func zzC18_SameLogPlan_Both() { zzC18SameLog(4, "plans=1;old=1") }
+
+func zzC18_SameLogSetTitle_Neither() { zzC18SameLog(5, "plans=0;old=0") }
+func zzC18_SameLogSetTitle_Plans() { zzC18SameLog(5, "plans=1;old=0") }
+func zzC18_SameLogSetTitle_Legacy() { zzC18SameLog(5, "plans=0;old=1") }
+func zzC18_SameLogSetTitle_Both() { zzC18SameLog(5, "plans=1;old=1") }
+func zzC18_SameLogSetResult_Neither() { zzC18SameLog(6, "plans=0;old=0") }
+func zzC18_SameLogSetResult_Plans() { zzC18SameLog(6, "plans=1;old=0") }
+func zzC18_SameLogSetResult_Legacy() { zzC18SameLog(6, "plans=0;old=1") }
+func zzC18_SameLogSetResult_Both() { zzC18SameLog(6, "plans=1;old=1") }
 
 // (b) init on ANY existing store (legacy only, plans only, both, neither; lock present or not)
 // changes no item and hides none, and is idempotent.
